@@ -156,6 +156,8 @@ IDIOMS = [
     ('R6.rposition_not_nine', r'([A-Za-z_][A-Za-z0-9_]*)\.iter\(\)\.rev\(\)\.position\(\|&d\| d != b\'9\'\)', r'shim::rposition_not_nine(&\1)'),
     ('R2.split_first_ref', r'let \(&([a-z_0-9]+), ([a-z_0-9]+)\) = ([^;]*?)\.split_first\(\)\.unwrap_or\(\(&b\'0\', &\[\]\)\);',
      r'let (\1__r, \2) = shim::split_first_or_zero(\3); let \1 = *\1__r;'),
+    ('R6.fill_prefix', r'fill_slice\(&mut ([A-Za-z_][A-Za-z0-9_]*)\[\.\.([^\]]+)\], b\'0\'\);', r'shim::fill_prefix(\1, \2, 48u8);'),
+    ('R6.copy_within_prefix', r'([A-Za-z_][A-Za-z0-9_]*)\.copy_within\(\.\.([A-Za-z_][A-Za-z0-9_]*), ([A-Za-z_][A-Za-z0-9_]*)\);', r'shim::copy_prefix_within(\1, \2, \3);'),
     # R2 reference patterns
     ('R2.split_last_ref', r'let \(&([a-z_0-9]+), ([a-z_0-9]+)\) = ([^;]*?)\.split_last\(\)\.unwrap\(\);',
      r'let (\1__r, \2) = \3.split_last().unwrap(); let \1 = *\1__r;'),
